@@ -1390,6 +1390,27 @@ M("SEED-C19-b", ["C19"], [("@patch", "seeded/C19-b/patch.diff", "")], ["C19/qos/
 M("SEED-C20-a", ["C20"], [("@patch", "seeded/C20-a/patch.diff", "")], ["C20/target/topic"])
 M("SEED-C20-b", ["C20"], [("@patch", "seeded/C20-b/patch.diff", "")], ["C20/publication/OwnedResponseTarget/correlation"])
 
+# seeds of round 3 (one per property, asked to sit where two pieces of code must agree or on a boundary value)
+M("SEED-C01-c", ["C01"], [("@patch", "seeded/C01-c/patch.diff", "")], ["C01/varint/encoded-len"])
+M("SEED-C02-c", ["C02"], [("@patch", "seeded/C02-c/patch.diff", "")], ["C02/base/scratch_space"])
+M("SEED-C03-c", ["C03"], [("@patch", "seeded/C03-c/patch.diff", "")], ["C03/comp/removes-the-acknowledged-entry"])
+M("SEED-C04-c", ["C04"], [("@patch", "seeded/C04-c/patch.diff", "")], ["C04/fresh/before-any-failure"])
+M("SEED-C05-c", ["C05"], [("@patch", "seeded/C05-c/patch.diff", "")], ["C05/replay/pending_control"])
+M("SEED-C06-c", ["C06"], [("@patch", "seeded/C06-c/patch.diff", "")], ["C06/inc/after-removal/PubAck"])
+M("SEED-C07-c", ["C07"], [("@patch", "seeded/C07-c/patch.diff", "")], ["C07/fresh/pending_release"])
+M("SEED-C08-c", ["C08"], [("@patch", "seeded/C08-c/patch.diff", "")], ["C08/tables/qos3"])
+M("SEED-C09-c", ["C09"], [("@patch", "seeded/C09-c/patch.diff", "")], ["C09/bits/connect/will-retain"])
+M("SEED-C10-c", ["C10"], [("@patch", "seeded/C10-c/patch.diff", "")], ["C10/const/schedule-after-connack"])
+M("SEED-C11-c", ["C11"], [("@patch", "seeded/C11-c/patch.diff", "")], ["C11/fatal/flush_current/Write.flush#1"])
+M("SEED-C12-c", ["C12"], [("@patch", "seeded/C12-c/patch.diff", "")], ["C12/advertised/ReceiveMaximum"])
+M("SEED-C13-c", ["C13"], [("@patch", "seeded/C13-c/patch.diff", "")], ["C13/ping/pending-states"])
+M("SEED-C14-c", ["C14"], [("@patch", "seeded/C14-c/patch.diff", "")], ["C14/rx/window"])
+M("SEED-C15-c", ["C15"], [("@patch", "seeded/C15-c/patch.diff", "")], ["C15/write/resume-slice"])
+M("SEED-C17-c", ["C17"], [("@patch", "seeded/C17-c/patch.diff", "")], ["C17/writers/ack_packet/copy_within"])
+M("SEED-C18-c", ["C18"], [("@patch", "seeded/C18-c/patch.diff", "")], ["C18/status/table"])
+M("SEED-C19-c", ["C19"], [("@patch", "seeded/C19-c/patch.diff", "")], ["C19/table/Will/TopicAlias"])
+M("SEED-C20-c", ["C20"], [("@patch", "seeded/C20-c/patch.diff", "")], ["C20/decode/ContentType"])
+
 # third round: property-centred behaviour-preserving refactorings (five per property, around that property's anchors)
 for _p in sorted(_glob.glob(_os.path.join(_os.path.dirname(_os.path.abspath(__file__)), "refactors", "rf3", "*.diff"))):
     RF("RF3-" + _os.path.basename(_p)[:-5], ALL19, [("@patch", "selftest/refactors/rf3/" + _os.path.basename(_p), "")])
